@@ -33,7 +33,7 @@ ASSUMPTIONS = common.ASSUMPTIONS + [
     'item parsers consume at least one byte of a non-empty buffer (clause K2i, proved per item class by C03) and raise or return; nested parsers enter through their class contracts',
     'slicing the remaining buffer per item (unparsed_bytes[parsed_length:], the copy made by _parse_mpint) is one step; the bytes copied by such slices are not counted (the property counts interpreter steps)',
 ]
-UNCOVERED = ['text layer (ParserText scanning loops, HTTP header fields, SSH banner, DNS TXT key-value text): not under contract (C18 territory)',
+UNCOVERED = ['text layer (ParserText loops other than the separator scan of _parse_string_until_separator; HTTP header fields, SSH banner, DNS TXT key-value text): not under contract (C18 territory)',
              'X.509 / asn1crypto and LDAP parsing (external code)',
              'the constants A_C, B_C are not computed; only their existence (constant straight-line code, bounded trip counts) is established']
 BOUNDED = []
@@ -188,6 +188,84 @@ def numeric_array_trip_unit(size):
             out.unsupported.append('no trip-count obligation generated')
         return out
     return run
+
+
+class ScanStart(object):
+    """entry-only contract for a forward scan `for i in range(start, len(buffer) + 1)`: the scan starts where the caller's
+    item starts, i.e. its trip count is at most the bytes from that offset on (+1); the body is not explored"""
+    force = False
+
+    def __init__(self, offset_name):
+        self.offset_name = offset_name
+
+    def applies(self, frame):
+        return True
+
+    def entry(self, frame, ctx):
+        p = frame.lookup('self')
+        n = ops.as_seq(p.f['_parsable']).n
+        off = ops.as_int(frame.lookup(self.offset_name))
+        return [('the scan covers only the bytes from the item offset on: trip count <= len(buffer) - item_offset + 1', ctx.n <= n - off + 1)]
+
+    def arbitrary(self, frame, ctx, k):
+        raise E.PathEnd()
+
+    def after(self, frame, ctx, k):
+        return []
+
+    def exit(self, frame, ctx):
+        raise E.PathEnd()
+
+    def on_break(self, frame, ctx, k):
+        pass
+
+
+def text_scan_unit():
+    """ParserText._parse_string_until_separator (reached from the SSH name-lists through VectorString): the separator search
+    of one item starts at that item's offset, whatever was parsed before it"""
+    from cryptoparser.common.parse import ParserText
+    fn = ParserText._parse_string_until_separator
+
+    def run():
+        e1.setup()
+        key = None
+        for k, it in loops_of(fn):
+            if it.startswith('range(') and 'len(self._parsable)' in it:
+                key = (fn.__qualname__, k)
+        if key is None:
+            r = vc.UnitResult('scan')
+            r.unsupported.append('the forward scan loop of _parse_string_until_separator was not found')
+            return r
+        F.LOOPS[key] = ScanStart('item_offset')
+        I.INLINE.add(fn)
+
+        def thunk():
+            P = E.cur()
+            p, facts = V.base_seq('p')
+            for f in facts:
+                P.assume(f)
+            pl, off = z3.Int('parsed_length'), z3.Int('item_offset')
+            P.assume(z3.And(pl >= 0, pl <= off, off <= p.n))
+            P.inputs.update(parsable=p, parsed_length=SInt(pl), item_offset=SInt(off))
+            o = SObj(ParserText, dict(_parsable=p, _parsed_length=SInt(pl), _parsed_values={}, _encoding='ascii'))
+            try:
+                common.run_body(fn, [o, 'x', SInt(off), ',', str, None, True, ''])
+            except E.PyRaise:
+                pass
+        res = vc.run_unit('text-scan', thunk, max_paths=200)
+        out = only_loop_obligations(res, '_parse_string_until_separator')
+        if not any('trip count' in o['name'] for o in out.obligations) and not out.unsupported:
+            out.unsupported.append('no trip-count obligation generated')
+        return out
+    return run
+
+
+def search_text_scan(seed, hints=()):
+    from cryptoparser.ssh.subprotocol import SshKexAlgorithmVector
+    def names(n):
+        body = b','.join(b'a%d' % i for i in range(n // 5))
+        return len(body).to_bytes(4, 'big') + body
+    return native_growth(SshKexAlgorithmVector, names)
 
 
 # ------------------------------------------------------------------------------------------------------- census
@@ -473,6 +551,8 @@ def units(tier, seed):
     for size in (1, 2, 3, 4, 8):
         out.append(mk('trip/_parse_numeric_array[item_size=%d]' % size, numeric_array_trip_unit(size), search_derived,
                       ['ParserBinary._parse_numeric_array']))
+    out.append(mk('trip/ParserText._parse_string_until_separator[scan starts at the item]', text_scan_unit(), search_text_scan,
+                  ['ParserText._parse_string_until_separator']))
     out.append(census_unit())
     out.append(recursion_unit())
     UNCOVERED[:] = [u for u in UNCOVERED if not u.startswith('loop without contract')] + \
